@@ -459,7 +459,11 @@ def _check_sort_relabel(ctx, fi: FuncInfo, res: RuleResult):
     fn = fi.node
     rel = [cs for cs in sites(ctx, fi) if cs.kind == "ext" and cs.target == "networkx.relabel_nodes"]
     if len(rel) != 1:
-        raise AnalysisError("sort_molecule_by_attribute: expected one relabel_nodes call")
+        # the renumbering is applied some other way (e.g. the graph is rebuilt): R-REBUILD decides whether nodes and
+        # bonds are renamed consistently; here only the sorted order of the (key, label) pairs is checked
+        class _N:   # stand-in for the site reported
+            node = fn
+        rel = [_N]
     srt = [n for n in own_walk(fn) if isinstance(n, ast.Call) and isinstance(n.func, ast.Name) and n.func.id == "sorted"]
     ok = False
     why = "no sorted(...) of (key, atom) pairs"
@@ -678,8 +682,16 @@ def r_attrread(ctx) -> RuleResult:
                     reads.append((n, n.args[1], "node"))
                 if r and r[0] == "ext" and r[1] == "networkx.get_edge_attributes":
                     reads.append((n, n.args[1] if len(n.args) > 1 else ast.Constant("?"), "edge"))
+        carried = set()
+        for n in own_walk(fn):
+            if isinstance(n, ast.Call) and isinstance(n.func, ast.Attribute) and n.func.attr in ("add_edges_from", "add_weighted_edges_from") and n.args:
+                for x in ast.walk(n.args[0]):
+                    carried.add(id(x))
         for node, kexpr, kind in reads:
             n_reads += 1
+            if kind == "edge" and id(node) in carried:
+                res.inst(fi.fq, short(node), "ok", detail="bond data carried into a rebuilt graph, not inspected")
+                continue
             if kind == "edge":
                 res.inst(fi.fq, short(node), "fail")
                 res.fail(Finding("R-ATTRREAD", fi.module.rel, fi.qualname, norm(node), "bond data is read inside the identifier pipeline: bond types would influence the string", line=node.lineno))
